@@ -675,12 +675,22 @@ type SharedCase struct {
 	Clients int   `json:"clients"` // clients (bus.Cache) sharing one endpoint
 	Each    int   `json:"each"`    // calls per client
 	Delays  []int `json:"delays"`  // callee delay per client (us)
+	// SameTarget: every client calls the same service with arguments of the
+	// same length: frames which are equal in every header field, sent by
+	// different clients of the connection, arrive one behind the other
+	SameTarget bool `json:"same_target,omitempty"`
 }
 
 func genShared(t *rapid.T) SharedCase {
 	c := SharedCase{Clients: rapid.IntRange(2, 4).Draw(t, "clients"), Each: rapid.IntRange(1, 12).Draw(t, "each")}
 	for i := 0; i < c.Clients; i++ {
 		c.Delays = append(c.Delays, rapid.SampledFrom([]int{0, 50, 300, 1000}).Draw(t, "delay"))
+	}
+	if rapid.IntRange(0, 2).Draw(t, "sametarget") == 0 {
+		c.SameTarget = true
+		for i := range c.Delays {
+			c.Delays[i] = c.Delays[0]
+		}
 	}
 	return c
 }
@@ -714,7 +724,10 @@ func checkShared(c SharedCase) error {
 	for i := range proxies {
 		cache := bus.NewCache(ep) // its own client, same connection
 		name := fmt.Sprintf("Svc%d", i)
-		if err := cache.Lookup(name, svcIDs[i]); err != nil {
+		if c.SameTarget {
+			name = "Svc0"
+		}
+		if err := cache.Lookup(name, svcIDs[map[bool]int{true: 0, false: i}[c.SameTarget]]); err != nil {
 			return vt.Violationf("C04:setup", "lookup: %v", err)
 		}
 		px, err := cache.Proxy(name, 1)
@@ -760,10 +773,17 @@ func checkShared(c SharedCase) error {
 	for i := 0; i < c.Clients; i++ {
 		for k := 0; k < c.Each; k++ {
 			tag := fmt.Sprintf("c%dk%d~%d", i, k, c.Delays[i])
-			if n := env.Journal.Count(fmt.Sprintf("Svc%d", i), "hello", tag); n != 1 {
+			svcName := fmt.Sprintf("Svc%d", i)
+			if c.SameTarget {
+				svcName = "Svc0"
+			}
+			if n := env.Journal.Count(svcName, "hello", tag); n != 1 {
 				return vt.Violationf("C04:execution-count", "shared connection: hello(%q) ran %d times on its own service", tag, n)
 			}
 		}
+	}
+	if c.SameTarget {
+		vt.Label("shared-connection-same-target(equal-headers)")
 	}
 	vt.Case(c.Each >= 2, fmt.Sprint(c), "shared-connection", fmt.Sprintf("clients=%d", c.Clients))
 	return nil
